@@ -183,7 +183,7 @@ int main( int argc, char ** argv ) {
             // (attributes 9..11) - the element writers (IntNode / RealNode) must render the same value the same way
             std::string aggw = "-";
             int aggsev = 99;
-            if( ai <= 2 && !null0 && w.str().size() ) {
+            if( ai <= 7 && !null0 && w.str().size() ) {
                 STEPattribute & g = e->attributes[ai + 9];
                 g.set_null();
                 std::istringstream gin( "(" + w.str() + ")," );
